@@ -395,6 +395,7 @@ static void leg_threads(int slice, int nslices, void *arg_)
 {
     (void)nslices; leg_arg_t la = *(leg_arg_t *)arg_;
     la.threads = TH[slice % 3]; la.sched = SCHEDS[slice / 3];
+    if (g_ctx) { parsec_current_scheduler = NULL; parsec_fini(&g_ctx); }      /* the one-stream context inherited from the parent */
     parsec_context_t *parsec = init_ctx(la.threads, la.sched); use_hsched = 0;
     vis_t v = { 0, 1, NULL, &la, 0 };
     gen_t *g = (gen_t *)malloc(sizeof(gen_t));
@@ -446,6 +447,7 @@ int main(int argc, char **argv)
     }
     if (!Nfree) Nfree = N;
     static const char *aux[] = { "histories", "max_history_length", NULL };
+    double full_deadline = wr_deadline;
     if (count_only) { gen_t *g = (gen_t *)malloc(sizeof(gen_t)); for (int n = 2; n <= N; n++) { gen_all(g, n, kinds, NULL, NULL); printf("complete legal histories of length <= %d over kinds {%s}: %ld\n", n, kinds, g->count); } return 0; }
     if (wr_replay_file) {
         static char scen[128], cas[WR_CASELEN];
@@ -453,11 +455,10 @@ int main(int argc, char **argv)
         wr_run_legs("replay", 1, leg_replay, cas, 30, NULL);
         return wr_finish();
     }
-    /* free-running configuration box first (short), then the deciding legs up to the deadline */
-    if (!only || !strcmp(only, "threads")) { leg_arg_t la = { Nfree, 0, kinds, 0, NULL, reps }; wr_run_legs("threads", 9, leg_threads, &la, 90, aux); }
     /* leg "orders": plan = list of len:kinds:lo ; lo (histories of length <= lo were covered by an earlier, complete entry) */
     if (!only || !strcmp(only, "orders")) {
         char pl[256]; snprintf(pl, sizeof(pl), "%s", plan); int all_exh = 1;
+        if (full_deadline > 0 && (!only || strcmp(only, "orders"))) wr_deadline = full_deadline - 0.2 * (full_deadline - wr_now());   /* keep 20% for the threads leg */
         init_ctx(1, NULL);       /* once, in the parent: the forked workers inherit the initialised one-stream context */
         for (char *t = strtok(pl, ","); t; t = strtok(NULL, ",")) {
             int n = 0, lo = 0; static char kd[8][8]; static int ki = 0; char *k = kd[ki++ % 8];
@@ -467,9 +468,12 @@ int main(int argc, char **argv)
             char name[48]; snprintf(name, sizeof(name), "orders-len%d-%s", n, k);
             leg_arg_t la = { n, lo, k, 1, NULL, 1 };
             int v0 = wr_total_violations;
-            wr_run_legs(name, n <= 4 ? 2 : jobs, leg_orders, &la, 60, aux);
+            wr_run_legs(name, n <= 4 ? 2 : jobs, leg_orders, &la, 600, aux);
             if (wr_total_violations != v0 || wr_expired()) all_exh = 0;
         }
     }
+    /* free-running configuration box (a reserved share of the time budget) */
+    wr_deadline = full_deadline;
+    if (!only || !strcmp(only, "threads")) { leg_arg_t la = { Nfree, 0, kinds, 0, NULL, reps }; wr_run_legs("threads", 9, leg_threads, &la, 240, aux); }
     return wr_finish();
 }
